@@ -439,6 +439,14 @@ func groupConstraintsIntoIntervals(constraints []constraint) ([]interval, error)
 
 	// Excludes are handled separately in the contains function, not as intervals
 
+	// Range constraints whose comparators alternate as the VERS specification requires (an optional
+	// leading upper bound, then lower/upper pairs, then an optional trailing lower bound; constraints
+	// are sorted by version) denote exactly the intervals obtained by pairing each lower bound with
+	// the upper bound that follows it.
+	if paired, ok := pairAlternatingBounds(constraints); ok {
+		return append(intervals, paired...), nil
+	}
+
 	// Handle range constraints (lower/upper bounds)
 	if len(lowerBounds) > 0 || len(upperBounds) > 0 {
 		// For VERS spec compliance, we need to analyze the constraint pattern:
@@ -522,6 +530,54 @@ func groupConstraintsIntoIntervals(constraints []constraint) ([]interval, error)
 	}
 
 	return intervals, nil
+}
+
+// pairAlternatingBounds walks the version-sorted constraints and pairs every lower bound with the upper
+// bound that follows it. It reports false when the range comparators do not alternate (two lower or two
+// upper bounds in a row), in which case the caller falls back to its heuristics.
+func pairAlternatingBounds(constraints []constraint) ([]interval, bool) {
+	var intervals []interval
+	var pending *constraint // lower bound waiting for its upper bound
+	seenBound := false
+	lastWasUpper := false
+	for i := range constraints {
+		c := &constraints[i]
+		switch c.operator {
+		case ">=", ">":
+			if pending != nil {
+				return nil, false
+			}
+			pending = c
+			seenBound = true
+			lastWasUpper = false
+		case "<=", "<":
+			if pending != nil {
+				intervals = append(intervals, interval{
+					lower:          pending.version,
+					lowerInclusive: pending.operator == ">=",
+					upper:          c.version,
+					upperInclusive: c.operator == "<=",
+				})
+				pending = nil
+			} else if !seenBound {
+				intervals = append(intervals, interval{
+					upper:          c.version,
+					upperInclusive: c.operator == "<=",
+				})
+			} else if lastWasUpper {
+				return nil, false
+			}
+			seenBound = true
+			lastWasUpper = true
+		}
+	}
+	if pending != nil {
+		intervals = append(intervals, interval{
+			lower:          pending.version,
+			lowerInclusive: pending.operator == ">=",
+		})
+	}
+	return intervals, seenBound
 }
 
 // shouldMergeConstraints determines whether constraints should be merged (most restrictive)
